@@ -106,10 +106,49 @@ func c14(c *Ctx) {
 		pos := c.P.Pos(w.node.Pos())
 		gc := &gateCtx{c: c, f: f, fi: fi, info: info, s: f.sessionParam(fi)}
 		name := fi.Name()
+		// ownerOK: the session expression whose Channels set is changed owns the member key w.key:
+		// key is NickToLower(X.Nick) with X that session, or X was looked up in i.nicks under the very same key
+		// (or under NickToLower(E) with key = NickToLower(E)).
+		ownerOK := func(sess ast.Expr) bool {
+			key := w.key
+			if d := uniqueDef(info, fi.Node(), key); d != nil {
+				key = d
+			}
+			if call, ok := ast.Unparen(key).(*ast.CallExpr); ok && len(call.Args) == 1 {
+				if se, ok := ast.Unparen(call.Args[0]).(*ast.SelectorExpr); ok && se.Sel.Name == "Nick" && astx.Same(info, se.X, sess) {
+					return true
+				}
+			}
+			id, ok := ast.Unparen(sess).(*ast.Ident)
+			if !ok {
+				return false
+			}
+			for _, d := range defsOf(info, fi.Node(), astx.Obj(info, id)) {
+				ie, ok := ast.Unparen(d).(*ast.IndexExpr)
+				if d == nil || !ok {
+					continue
+				}
+				se, ok := ast.Unparen(ie.X).(*ast.SelectorExpr)
+				if !ok || astx.FieldSel(info, se) != f.fNicks {
+					continue
+				}
+				k2 := ie.Index
+				if d2 := uniqueDef(info, fi.Node(), k2); d2 != nil {
+					k2 = d2
+				}
+				if astx.Same(info, ie.Index, w.key) || astx.Same(info, k2, key) {
+					return true
+				}
+			}
+			return false
+		}
 		isChannelsWrite := func(del bool) func(x *cfgx.Vertex) bool {
 			return func(x *cfgx.Vertex) bool {
 				return isStmt(x, func(n ast.Node) bool {
 					for _, w2 := range c.mapWritesIn(fi, n, f.fSChannels) {
+						if w2.delete == del && !ownerOK(w2.recv) {
+							continue
+						}
 						if w2.delete == del {
 							// same channel: key equals the key under which the channel was looked up / created
 							if k := gc.chanKey(w.recv); k == nil || astx.Same(info, w2.key, k) {
@@ -145,7 +184,7 @@ func c14(c *Ctx) {
 				})
 			})
 			r.Check(okCh, "C14.M1", name, "member removal "+astx.Str(w.key)+" paired with Channels removal", pos, "delete(session.Channels, <same channel>) on every path to the return",
-				"a session is removed from a channel's member list but keeps the channel in its own Channels set: it lists a channel that does not list it")
+				"the session removed from the channel's member list does not drop the channel from its own Channels set (missing, or done on a different session): it keeps listing a channel that does not list it and keeps receiving its NICK/QUIT traffic")
 			r.Check(okMaybe, "C14.M1", name, "member removal "+astx.Str(w.key)+" followed by maybeDeleteChannelLocked", pos, "maybeDeleteChannelLocked(<same channel>) on every path to the return",
 				"after removing a member the channel is not dropped when it became empty: a channel without members stays around")
 			continue
@@ -159,7 +198,7 @@ func c14(c *Ctx) {
 		}
 		okCh := g.PostDominatedBy(v, g.Exit, isChannelsWrite(false))
 		r.Check(okCh, "C14.M1", name, "member insert "+astx.Str(w.key)+" paired with Channels insert", pos, "session.Channels[<same channel>] = true on every path to the return",
-			"a session is added to a channel's member list without the channel being added to its own Channels set")
+			"the session added to the channel's member list does not get the channel in its own Channels set (missing, or done on a different session)")
 		// the value is a fresh, non-nil status entry
 		okVal := false
 		if u, ok := ast.Unparen(w.val).(*ast.UnaryExpr); w.val != nil && ok && u.Op == token.AND {
@@ -389,6 +428,40 @@ func c14(c *Ctx) {
 					}
 					return false
 				})
+				// … and on every such path: no other condition may stand between the assignment and the removal
+				atAssign := map[string]bool{}
+				for _, cl := range c.clausesAt(fi, g, v) {
+					for _, l := range cl {
+						atAssign[astx.Str(l.E)] = true
+					}
+				}
+				var extra []string
+				for _, cl := range c.clausesAt(fi, g, dv) {
+					for _, l := range cl {
+						if atAssign[astx.Str(l.E)] {
+							continue
+						}
+						okLit := false
+						// old != ""  /  old != new  /  !caseOnlyFlag
+						if be, ok := ast.Unparen(l.E).(*ast.BinaryExpr); ok && (be.Op == token.NEQ || be.Op == token.EQL) {
+							if astx.Same(info, be.X, w.key) || astx.Same(info, be.Y, w.key) {
+								okLit = true
+							}
+						}
+						if id, ok := ast.Unparen(l.E).(*ast.Ident); ok && !l.Pos {
+							for _, d := range defsOf(info, fi.Node(), astx.Obj(info, id)) {
+								if be, ok := ast.Unparen(d).(*ast.BinaryExpr); d != nil && ok && be.Op == token.EQL {
+									okLit = true
+								}
+							}
+						}
+						if !okLit {
+							extra = append(extra, astx.Str(l.E))
+						}
+					}
+				}
+				r.Check(len(extra) == 0, "C14.M2", name, "old index key removed whenever it exists and differs", c.P.Pos(w.node.Pos()), "guarded only by old != \"\" and the keys differing",
+					"the removal of the old nickname from the index (and the re-keying of the channels) additionally depends on "+strings.Join(extra, ", ")+": on the other paths the old nickname stays registered to the session, is never free again and private messages to it reach the wrong session")
 				r.Check(okGuard, "C14.M2", name, "old index key removed only when it differs from the new key", c.P.Pos(w.node.Pos()), "dominated by old != new (or the case-only flag being false)",
 					"after inserting the session under its new key the old key is deleted unconditionally: a nickname change that only changes capitalization removes the session from the index (and from its channels)")
 				// rename loop over all channels under the same guard
@@ -573,6 +646,34 @@ func c14(c *Ctx) {
 			if found {
 				okLimit = true
 			}
+		}
+		// the number of channels compared must be current: read inside the innermost loop that contains the creation
+		var loop ast.Node
+		ast.Inspect(fi.Body(), func(n ast.Node) bool {
+			switch x := n.(type) {
+			case *ast.RangeStmt:
+				if x.Body.Pos() <= w.node.Pos() && w.node.End() <= x.Body.End() {
+					loop = x.Body
+				}
+			case *ast.ForStmt:
+				if x.Body.Pos() <= w.node.Pos() && w.node.End() <= x.Body.End() {
+					loop = x.Body
+				}
+			}
+			return true
+		})
+		if loop != nil && okLimit {
+			fresh := false
+			ast.Inspect(loop, func(n ast.Node) bool {
+				if call, ok := n.(*ast.CallExpr); ok && astx.Builtin(info, call) == "len" && len(call.Args) == 1 {
+					if se, ok := ast.Unparen(call.Args[0]).(*ast.SelectorExpr); ok && astx.FieldSel(info, se) == f.fChannels && call.Pos() < w.node.Pos() {
+						fresh = true
+					}
+				}
+				return true
+			})
+			r.Check(fresh, "C14.M5", fi.Name(), "channel count is re-read for every channel of the request ("+astx.Str(w.key)+")", c.P.Pos(w.node.Pos()), "len(i.channels) evaluated inside the loop",
+				"the number of channels compared with the limit is read once before the loop over the requested channels: one request naming several new channels creates all of them and exceeds the configured maximum")
 		}
 		r.Check(okLimit, "C14.M5", fi.Name(), "channel created only below the configured limit ("+astx.Str(w.key)+")", c.P.Pos(w.node.Pos()), "dominated by the ChannelLimit comparison",
 			"a channel is created without comparing the number of channels to Config.MaxChannels: the configured maximum can be exceeded")
